@@ -219,6 +219,37 @@ func genCase(r *common.Rng, maxOps int) Case {
 	return c
 }
 
+// nameFeatures classifies the usernames with traffic in a case (input distribution of the evidence)
+func nameFeatures(c Case) []string {
+	seen := map[string]bool{}
+	lower := map[string]int{}
+	var fs []string
+	mixed, nonASCII, long, esc := false, false, false, false
+	for _, o := range c.Ops {
+		if (o.Op == "tcp" || o.Op == "udpdown" || o.Op == "udpup") && o.User != "" && !seen[o.User] {
+			seen[o.User] = true
+			lower[strings.ToLower(o.User)]++
+			mixed = mixed || strings.ToLower(o.User) != o.User
+			long = long || len(o.User) >= 100
+			esc = esc || strings.ContainsAny(o.User, "%+!@~")
+			for _, r := range o.User {
+				nonASCII = nonASCII || r > 127
+			}
+		}
+	}
+	caseOnly := false
+	for _, n := range lower {
+		caseOnly = caseOnly || n > 1
+	}
+	for k, b := range map[string]bool{"upper-and-lower-case": mixed, "differ-only-in-case": caseOnly, "non-ascii": nonASCII, "long(>=100)": long, "url-special": esc, "users>=16": len(seen) >= 16} {
+		if b {
+			fs = append(fs, k)
+		}
+	}
+	sort.Strings(fs)
+	return fs
+}
+
 func contains(xs []string, x string) bool {
 	for _, y := range xs {
 		if x == y {
@@ -476,6 +507,9 @@ func evalSeq(cases []Case, o *common.Options, rep *common.Report) error {
 		impl, fails, pan := runSeq(c)
 		rep.Case(sig(c), nontrivialSeq(c))
 		rep.Count(fmt.Sprintf("seq:ops<=%d", (len(c.Ops)+9)/10*10))
+		for _, k := range nameFeatures(c) {
+			rep.Count("seq:names:" + k)
+		}
 		for _, op := range c.Ops {
 			rep.Count("seq:op=" + op.Op)
 		}
